@@ -230,7 +230,7 @@ func Walk(c *Ctx) error {
 			inputs = append(inputs, walkInput{Tree: t, API: api})
 		}
 	}
-	n := 150
+	n := 260
 	if c.Thorough() {
 		n = 4000
 	}
@@ -570,7 +570,7 @@ func Filter(c *Ctx) error {
 		}
 		return nil
 	}
-	n := 1500
+	n := 4000
 	if c.Thorough() {
 		n = 40000
 	}
